@@ -2,6 +2,7 @@ package proxy
 
 import (
 	"bytes"
+	"errors"
 	gkm "github.com/go-kit/kit/metrics"
 	"io"
 	"log"
@@ -95,26 +96,41 @@ func newWSHandler(host string, dial dialFunc, conn gkm.Gauge) http.Handler {
 
 		// When one side signals EOF the write side of the other connection
 		// is closed so that the peer sees the EOF as well but can still
-		// send its remaining data (TCP half-close). The tunnel ends when
-		// both directions are done, when copying fails or when the EOF
-		// cannot be passed on.
-		errc := make(chan error, 2)
+		// send its remaining data (TCP half-close). A direction which fails
+		// ends only itself since the other direction may still be delivering
+		// the data of a side which has finished properly. The tunnel ends
+		// when both directions are over, or at once when the end of a
+		// direction cannot be passed on or a connection was closed locally.
+		type result struct {
+			err  error
+			stop bool // do not wait for the other direction
+		}
+		resc := make(chan result, 2)
 		cp := func(dst net.Conn, src io.Reader) {
 			_, err := io.Copy(dst, src)
-			if err == nil {
-				cw, ok := dst.(interface{ CloseWrite() error })
-				if !ok || cw.CloseWrite() != nil {
+			if errors.Is(err, net.ErrClosed) {
+				resc <- result{err, true}
+				return
+			}
+			cw, ok := dst.(interface{ CloseWrite() error })
+			if !ok || (cw.CloseWrite() != nil && err == nil) {
+				if err == nil {
 					err = io.EOF
 				}
+				resc <- result{err, true}
+				return
 			}
-			errc <- err
+			resc <- result{err, false}
 		}
 
 		go cp(out, in)
 		go cp(in, out)
-		err = <-errc
-		if err == nil {
-			err = <-errc
+		res := <-resc
+		err = res.err
+		if !res.stop {
+			if res = <-resc; err == nil {
+				err = res.err
+			}
 		}
 		if err != nil && err != io.EOF {
 			log.Printf("[INFO] WS error for %s. %s", r.URL, err)
